@@ -30,7 +30,11 @@ def run(ctx, out):
     K.check_cl(recs_cl + recs_foot, out, KEEP, PROP, 'cl')
     out.rule = ('MS: records with threshold-equal and one-ulp-off intensities / increments, runs of length one, '
                 'runs touching either end, through match_storms; CL: the same through the CLI with gaps, comparing '
-                'tables storm, zeta_interval, zeta_interval_storm and the view storm_total_rain_depth. '
+                'tables storm, zeta_interval, zeta_interval_storm and the view storm_total_rain_depth; water level logged '
+                '2-3x finer than rainfall with outages opening / closing at readings off the rainfall grid and heavy rain + '
+                'a rise running into and out of them, every recorded storm / rise judged against the gaps of the '
+                'water-level record as written to the input file; rises whose foot increments equal one of the roundings '
+                'of threshold x step. '
                 'Non-trivial: contention and >= 1 recorded pair; distinct by flag vectors.')
     out.samples = [dict(level='MS', record=recs[0]), dict(level='CL', record=recs_cl[3])]
     out.assumptions += ['SQLite SUM order: depth compared within 1e-9 relative (exact rational model)']
